@@ -540,6 +540,7 @@ func runC10(c *Ctx) {
 		}
 	}
 	c10ReplyMaps(c)
+	c10ListPages(c)
 	// (d) errors returned by handlers reach a real client unchanged in kind
 	for _, s := range specs {
 		if s.base == "nil" || (s.base == "errno" && s.errno > 14) {
